@@ -10,7 +10,7 @@ from .tlaval import to_tla, norm
 import txdbus.bus
 from txdbus import router, message, objects, interface
 
-ACTIONS = {'Add': ('r',), 'Del': ('id',), 'Route': ('i', 'raising'), 'RouteRemoving': ('i', 'x'), 'RouteAdding': ('i', 'r')}
+ACTIONS = {'Add': ('r',), 'Del': ('id',), 'Route': ('i', 'raising'), 'RouteRemoving': ('i', 'x'), 'RouteAdding': ('i', 'r'), 'AddRejected': ('r',)}
 OBS = ['invoked']
 NONE = '-'
 NONES = ('NONE',)      # absent key whose values are character sequences (the empty sequence is the empty string)
@@ -187,6 +187,21 @@ class HistDriver:
             call = self._reply()
             assert call.member == 'AddMatch'
             self.ids[mid] = got[0]
+        elif name == 'AddRejected':
+            r = args[0]
+            a, p = rule_args(r)
+            ghost = self.n + 500          # a callback that must never run
+
+            def never(m, ghost=ghost):
+                self.last[ghost] = self.last.get(ghost, 0) + 1
+            d = self.conn.addMatch(self.shared_cb if self.shared else never, arg=a, arg_path=p, **rule_kwargs(r))
+            res = []
+            d.addBoth(res.append)
+            calls = fakes.parse_all(self.t.take())
+            assert len(calls) == 1 and calls[0].member == 'AddMatch', calls
+            self.conn.dataReceived(message.ErrorMessage('org.freedesktop.DBus.Error.MatchRuleInvalid', calls[0].serial,
+                                                        destination=':1.7', signature='s', body=['no']).rawMessage)
+            assert res and not isinstance(res[0], int), res
         elif name == 'Del':
             mid = args[0]
             d = self.conn.delMatch(self.ids[mid])
